@@ -14,6 +14,7 @@
 
 import collections
 import pathlib
+import builtins
 import sys
 import textwrap
 import types
@@ -486,9 +487,14 @@ class SpaceTranslator(ParentTranslator):
             if parent.formula:
                 names.extend(parent.parameters)
             parent = parent.parent
+        param_defaults = []
         for k in names:
             if k not in space.refs:
                 lines.append(k + ' = None')
+                if k not in space.spaces and hasattr(builtins, k):
+                    # In the static space the name still means the built-in
+                    param_defaults.append(
+                        "self." + k + " = _mx_sys.builtins." + k)
 
         for k, v in space.cells.items():
             src = v.formula.source
@@ -531,6 +537,7 @@ class SpaceTranslator(ParentTranslator):
                     self.cache_method_noparam.format(name=func.name))
         if cache_vars:
             cache_vars.insert(0, "# Cache variables")
+        cache_vars.extend(param_defaults)
 
         # ItemSpace
         if space.formula:
